@@ -334,6 +334,7 @@ class EPoll(BasePoller):
         self._updateRegistration(self._ctrl_recv)
 
     def _updateRegistration(self, fd):
+        fileno = None
         try:
             fileno = fd.fileno() if not isinstance(fd, int) else fd
             self._poller.unregister(fileno)
@@ -355,6 +356,8 @@ class EPoll(BasePoller):
             self._map[fileno] = fd
         else:
             super().discard(fd)
+            if self._map.get(fileno) == fd:
+                del self._map[fileno]
 
     def addReader(self, source, fd):
         super().addReader(source, fd)
